@@ -10,15 +10,15 @@ def listing():
     out = []
     for line in r.stdout.split('\n'):
         p = line.split()
-        if len(p) == 4:
-            out.append((p[0], p[1], int(p[2]), int(p[3])))
+        if len(p) == 5:
+            out.append((p[0], p[1], int(p[2]), int(p[3]), int(p[4])))
     return out
 
 
 def instances(tier):
     L = 'liteclient'
     out = []
-    for kind, gt, nbytes, nvec in listing():
+    for kind, gt, nbytes, nvec, nopt in listing():
         bls = [0]
         if nbytes:
             bls = [0, 3, 254] if tier == 'quick' else [0, 1, 2, 3, 4, 253, 254, 255, 256]
@@ -27,7 +27,7 @@ def instances(tier):
             vls = [0, 2] if tier == 'quick' else [0, 1, 2]
         for bl in bls:
             for vl in vls:
-                out.append((L, f'VH_C10_{kind}_{gt}', [bl, vl], {'weight': 1 + nbytes * bl + 20 * vl}))
+                out.append((L, f'VH_C10_{kind}_{gt}', [bl, vl, -1], {'weight': 1 + nbytes * bl + 20 * vl}))
     return out
 
 
